@@ -2,6 +2,7 @@ package interpreter
 
 import (
 	. "github.com/glyphlang/glyph/pkg/ast"
+	"sort"
 
 	"fmt"
 	"strings"
@@ -432,8 +433,16 @@ func (i *Interpreter) executeFor(stmt ForStatement, env *Environment) (interface
 			}
 		}
 	} else if obj, ok := iterable.(map[string]interface{}); ok {
-		// Iterate over object/map
-		for key, value := range obj {
+		// Iterate over object/map in sorted key order. Ranging over the Go map
+		// directly visits keys in a different order on every run, so the same
+		// program could answer differently from one request to the next.
+		objKeys := make([]string, 0, len(obj))
+		for key := range obj {
+			objKeys = append(objKeys, key)
+		}
+		sort.Strings(objKeys)
+		for _, key := range objKeys {
+			value := obj[key]
 			// Create a fresh environment for each iteration
 			loopEnv := NewChildEnvironment(env)
 
